@@ -80,17 +80,18 @@ theorem C20_unfiltered_lookups (s : State) :
     lookupEp s [] = s.regs ∧
     lookupRes s [] = s.regs.flatMap (fun r => r.basedLinks.map stripAnchor) := by
   constructor
-  · simp [lookupEp]
+  · simp [lookupEp, criteria]
   · unfold lookupRes
     congr 1
     funext r
     rw [List.filter_eq_self.mpr]
     intro a _
-    simp
+    simp [criteria]
 
-/-- a filtered lookup lists registrations of the directory only, those meeting every criterion -/
+/-- a filtered lookup lists registrations of the directory only, those meeting every criterion
+(every option of the query but `page` and `count`) -/
 theorem C20_filtered_lookup (s : State) (q : Query) (x : Reg) :
-    x ∈ lookupEp s q ↔ x ∈ s.regs ∧ ∀ kv ∈ q, epCond x kv.1 kv.2 = true := by
+    x ∈ lookupEp s q ↔ x ∈ s.regs ∧ ∀ kv ∈ criteria q, epCond x kv.1 kv.2 = true := by
   simp [lookupEp, List.mem_filter, List.all_eq_true]
 
 /-- **C20 (lookups list exactly the live registrations).** For every history starting from the
@@ -167,9 +168,9 @@ theorem C20_effect_iff_response (c : Cfg) (s : State) (op : Op) :
 /-- what an accepted registration stores -/
 theorem C20_register_contents (s : State) (remote : Option Str) (q : Query) (body : Body) (r : Reg)
     (h : (decideOp s (.register remote q body)).effect = .wrote r) :
-    vals sEp q = [r.ep] ∧ vals sD q = r.d.toList ∧ linksOf body = .ok r.links ∧
+    vals sEp q = [some r.ep] ∧ dOf (vals sD q) = .ok r.d ∧ linksOf body = .ok r.links ∧
     r.refreshedAt = s.now ∧
-    ((vals sLt q = [] ∧ r.lt = 90000) ∨ (∃ v, vals sLt q = [v] ∧ parseInt v = some r.lt)) := by
+    ((vals sLt q = [] ∧ r.lt = 90000) ∨ (∃ v, vals sLt q = [some v] ∧ parseInt v = some r.lt)) := by
   simp only [decideOp] at h
   split at h
   · cases h
@@ -182,7 +183,6 @@ theorem C20_register_contents (s : State) (remote : Option Str) (q : Query) (bod
     split at hr'
     · cases hr'
     · split at hr'
-      · cases hr'
       · cases hr'
       · split at hr'
         · cases hr'
@@ -202,7 +202,7 @@ theorem C20_update_contents (s : State) (path : Nat) (remote : Option Str) (q : 
     ∃ old, aget path s.byPath = some old ∧ r.ep = old.ep ∧ r.d = old.d ∧ r.path = old.path ∧
       r.links = old.links ∧ r.refreshedAt = s.now ∧
       r.params = mergeParams old.params (q.filter (fun e => decide (e.1 ≠ sLt ∧ e.1 ≠ sBase))) ∧
-      ((vals sLt q = [] ∧ r.lt = old.lt) ∨ (∃ v, vals sLt q = [v] ∧ parseInt v = some r.lt)) := by
+      ((vals sLt q = [] ∧ r.lt = old.lt) ∨ (∃ v, vals sLt q = [some v] ∧ parseInt v = some r.lt)) := by
   simp only [decideOp] at h
   split at h
   · cases h
@@ -223,7 +223,7 @@ theorem C20_put_contents (s : State) (path : Nat) (remote : Option Str) (q : Que
     ∃ old, aget path s.byPath = some old ∧ r.ep = old.ep ∧ r.d = old.d ∧ r.path = old.path ∧
       linksOf body = .ok r.links ∧ r.refreshedAt = s.now ∧
       r.params = mergeParams old.params (q.filter (fun e => decide (e.1 ≠ sLt ∧ e.1 ≠ sBase))) ∧
-      ((vals sLt q = [] ∧ r.lt = old.lt) ∨ (∃ v, vals sLt q = [v] ∧ parseInt v = some r.lt)) := by
+      ((vals sLt q = [] ∧ r.lt = old.lt) ∨ (∃ v, vals sLt q = [some v] ∧ parseInt v = some r.lt)) := by
   simp only [decideOp] at h
   split at h
   · cases h
@@ -248,7 +248,7 @@ location and stores the new registration there. -/
 theorem C20_reregister_keeps_location (c : Cfg) (ops : List Op) (old : Reg)
     (remote : Option Str) (q : Query) (body : Body) (p : Nat)
     (hold : old ∈ (finalState c State.init ops).regs)
-    (hep : vals sEp q = [old.ep]) (hd : vals sD q = old.d.toList)
+    (hep : vals sEp q = [some old.ep]) (hd : dOf (vals sD q) = .ok old.d)
     (hresp : (step c (finalState c State.init ops) (.register remote q body)).2 = .created p) :
     p = old.path ∧
     ∃ r, (decideOp (finalState c State.init ops) (.register remote q body)).effect = .wrote r ∧
@@ -265,9 +265,7 @@ theorem C20_reregister_keeps_location (c : Cfg) (ops : List Op) (old : Reg)
     rw [hep] at h2
     rw [hd] at h3
     have he : r.ep = old.ep := by simpa using h2.symm
-    have hd' : r.d = old.d := by
-      cases hrd : r.d <;> cases hod : old.d <;> simp [hrd, hod] at h3 ⊢
-      exact h3.symm
+    have hd' : r.d = old.d := by simpa using h3.symm
     have hk : r.key = old.key := by simp [Reg.key, he, hd']
     rw [hk, aget_of_mem hi.nodupKey ((mem_regs hi).mp hold)] at hpath
     simp only at hpath
@@ -277,7 +275,7 @@ theorem C20_reregister_keeps_location (c : Cfg) (ops : List Op) (old : Reg)
 /-- **C20 (a new registration gets an unused location).** -/
 theorem C20_new_registration_fresh_location (c : Cfg) (ops : List Op)
     (remote : Option Str) (q : Query) (body : Body) (p : Nat) (ep : Str) (d : Option Str)
-    (hep : vals sEp q = [ep]) (hd : vals sD q = d.toList)
+    (hep : vals sEp q = [some ep]) (hd : dOf (vals sD q) = .ok d)
     (hnew : ∀ o ∈ (finalState c State.init ops).regs, ¬ (o.ep = ep ∧ o.d = d))
     (hresp : (step c (finalState c State.init ops) (.register remote q body)).2 = .created p) :
     ∀ o ∈ (finalState c State.init ops).regs, o.path ≠ p := by
@@ -293,9 +291,7 @@ theorem C20_new_registration_fresh_location (c : Cfg) (ops : List Op)
     rw [hep] at h2
     rw [hd] at h3
     have he : r.ep = ep := by simpa using h2.symm
-    have hd' : r.d = d := by
-      cases hrd : r.d <;> cases hod : d <;> simp [hrd, hod] at h3 ⊢
-      exact h3.symm
+    have hd' : r.d = d := by simpa using h3.symm
     cases hg : aget r.key s.byKey with
     | some o =>
       have hm := aget_some_mem hg
@@ -330,13 +326,129 @@ theorem C20_4xx_no_change (c : Cfg) (s : State) (op : Op)
   | reply resp => rfl
   | tick dt => rw [hd] at h; simp [applyAction, Resp.is4xx] at h
 
+/-- **C20 (any error answer ⇒ no change).** The same for every error answer, the 5.00 of an
+exception nothing catches included (the only one in the model: `lt` without a value): a request
+that is not answered 2.xx is not a "successful write" of anything. -/
+theorem C20_failed_request_no_change (c : Cfg) (s : State) (op : Op)
+    (h : (step c s op).2.isError = true) : (step c s op).1 = s := by
+  unfold step at h ⊢
+  cases hd : decideOp s op with
+  | fail code => rfl
+  | write r resp =>
+    rw [hd] at h
+    rcases decideOp_write_resp hd with rfl | rfl <;> simp [applyAction, Resp.isError] at h
+  | remove r => rw [hd] at h; simp [applyAction, Resp.isError] at h
+  | reply resp => rfl
+  | tick dt => rw [hd] at h; simp [applyAction, Resp.isError] at h
+
+/-- **C20 (options without a value: `lt`, `base`).** A registration, POST or PUT whose `lt` or
+`base` option has no `=` (and likewise a `base` that `urlsplit` refuses, such as `coap://[`) is
+answered with an error whatever else it carries, and so — by the theorem above — changes nothing:
+neither the parameters nor the lifetime timer of the registration it addresses. -/
+theorem C20_valueless_lt_or_bad_base_refused (c : Cfg) (s : State) (remote : Option Str) (q : Query)
+    (body : Body) (path : Nat)
+    (h : vals sLt q = [none] ∨ vals sBase q = [none] ∨
+      ∃ b, vals sBase q = [some b] ∧ urlsplitOk b = false) :
+    (step c s (.register remote q body)).2.isError = true ∧
+    (step c s (.update path remote q body)).2.isError = true ∧
+    (step c s (.put path remote q body)).2.isError = true := by
+  have key : ∀ now reg ini (q' : Query), vals sLt q' = vals sLt q → vals sBase q' = vals sBase q →
+      ∃ e, updateParams now reg remote q' ini = .error e := by
+    intro now reg ini q' h1 h2
+    rcases h with h | h
+    · exact updateParams_valueless_lt (h1.trans h)
+    · exact updateParams_bad_base (by rw [h2]; exact h)
+  refine ⟨?_, ?_, ?_⟩
+  · unfold step
+    simp only [decideOp]
+    cases hr : registerReg s remote q body with
+    | error e => simp [applyAction, Resp.isError]
+    | ok r =>
+      obtain ⟨fresh, r0, h0⟩ := registerReg_ok_updateParams hr
+      have f1 : vals sLt (q.filter (fun e => decide (e.1 ≠ sEp ∧ e.1 ≠ sD))) = vals sLt q :=
+        vals_filter (by intro e he; simp [he, sLt, sEp, sD])
+      have f2 : vals sBase (q.filter (fun e => decide (e.1 ≠ sEp ∧ e.1 ≠ sD))) = vals sBase q :=
+        vals_filter (by intro e he; simp [he, sBase, sEp, sD])
+      obtain ⟨e, he⟩ := key s.now fresh true _ f1 f2
+      rw [he] at h0
+      cases h0
+  · unfold step
+    simp only [decideOp]
+    cases hg : aget path s.byPath with
+    | none => simp [applyAction, Resp.isError]
+    | some reg =>
+      obtain ⟨e, he⟩ := key s.now reg false q rfl rfl
+      simp only [he]
+      split <;> simp [applyAction, Resp.isError]
+  · unfold step
+    simp only [decideOp]
+    cases hg : aget path s.byPath with
+    | none => simp [applyAction, Resp.isError]
+    | some reg =>
+      obtain ⟨e, he⟩ := key s.now reg false q rfl rfl
+      simp only [he]
+      split <;> simp [applyAction, Resp.isError]
+
+/-- **C20 (no registration poisons the lookups).** After every history, every base a client has
+given explicitly for a registration in the directory is one `urlsplit` accepts: the resolution of
+that registration's links, which every resource lookup and every filtered endpoint lookup runs
+over ALL registrations, has a base it can work with.  (Bases taken from the request's source
+address come from the transport, not from the client's query.) -/
+theorem C20_explicit_bases_resolvable (c : Cfg) (ops : List Op) (x : Reg)
+    (hx : x ∈ (finalState c State.init ops).regs) (he : x.baseExplicit = true) :
+    urlsplitOk x.base = true :=
+  finalState_basesOk Inv.init (by intro r hr; simp [State.regs, State.init] at hr)
+    (by intro r hr; simp [State.regs, State.init] at hr) ops x hx he
+
+/-- **C20 (an option without a value is a parameter like any other).** `?flag` on an accepted POST
+update is stored as the parameter `flag` without value beside the others, the registration keeps its
+name, sector, location and links, and its lifetime restarts at the current tick — exactly as for
+`?flag=x` (instance of `C20_update_contents`, spelled out for the valueless case). -/
+theorem C20_valueless_parameter_stored (s : State) (path : Nat) (remote : Option Str) (k : Str)
+    (body : Body) (r : Reg) (h : (decideOp s (.update path remote [(k, none)] body)).effect = .wrote r) :
+    ∃ old, aget path s.byPath = some old ∧ r.path = old.path ∧ r.links = old.links ∧ r.lt = old.lt ∧
+      r.refreshedAt = s.now ∧ r.params = aset k [none] old.params := by
+  obtain ⟨old, h1, _, _, h4, h5, h6, h7, h8⟩ := C20_update_contents s path remote [(k, none)] body r h
+  have hk : k ≠ sLt ∧ k ≠ sBase := by
+    simp only [decideOp, h1] at h
+    split at h
+    · cases h
+    · split at h
+      · cases h
+      · next r' hr' =>
+        by_cases hlt : k = sLt
+        · obtain ⟨e, he⟩ := updateParams_valueless_lt (now := s.now) (reg := old) (remote := remote)
+            (ini := false) (q := [(k, none)]) (by simp [vals, hlt])
+          rw [he] at hr'; cases hr'
+        · by_cases hb : k = sBase
+          · obtain ⟨e, he⟩ := updateParams_bad_base (now := s.now) (reg := old) (remote := remote)
+              (ini := false) (q := [(k, none)]) (Or.inl (by simp [vals, hb]))
+            rw [he] at hr'; cases hr'
+          · exact ⟨hlt, hb⟩
+  refine ⟨old, h1, h4, h5, ?_, h6, ?_⟩
+  · rcases h8 with ⟨_, h8⟩ | ⟨v, h8, _⟩
+    · exact h8
+    · exfalso
+      have : (k, (none : Val)) ∈ [(k, (none : Val))].filter (fun e => decide (e.1 = sLt)) := by
+        have h9 : ([(k, (none : Val))].filter (fun e => decide (e.1 = sLt))).map (·.2) = [some v] := h8
+        cases hf : [(k, (none : Val))].filter (fun e => decide (e.1 = sLt)) with
+        | nil => rw [hf] at h9; cases h9
+        | cons a l =>
+          have ha : a ∈ [(k, (none : Val))] := (List.mem_filter.mp (hf ▸ List.mem_cons_self)).1
+          simp only [List.mem_singleton] at ha
+          subst ha
+          exact List.mem_cons_self
+      exact hk.1 (by simpa using (List.mem_filter.mp this).2)
+  · rw [h7]
+    simp [mergeParams, group, firstKeys, vals, hk.1, hk.2]
+
 /-- reads and lookups never change the directory either -/
 theorem C20_lookups_pure (c : Cfg) (s : State) (q : Query) (p : Nat) :
     (step c s (.lookupEp q)).1 = s ∧ (step c s (.lookupRes q)).1 = s ∧ (step c s (.read p)).1 = s := by
-  refine ⟨rfl, rfl, ?_⟩
-  unfold step
-  simp only [decideOp]
-  split <;> rfl
+  refine ⟨?_, ?_, ?_⟩ <;>
+  · unfold step
+    simp only [decideOp]
+    split <;> rfl
 
 -- non-vacuity and sanity -----------------------------------------------------------------------------------
 
@@ -346,26 +458,26 @@ def exCfg : Cfg := { grace := 15, tps := 8 }
 def exRemote : Str := [99, 111, 97, 112, 58, 47, 47, 104]          -- "coap://h"
 def exN1 : Str := [110, 49]
 def exN2 : Str := [110, 50]
-def exLinks : List Link := [{ href := [47, 97], attrs := [(sRt, [120])] }]
+def exLinks : List Link := [{ href := [47, 97], attrs := [(sRt, some [120])] }]
 def exBody : Body := { cf := .linkFormat, payload := .links exLinks }
 def exNoBody : Body := { cf := .absent, payload := .links [] }
 /-- register n1 (lt=5) and n2 (default lt); 159 ticks later n1 is still listed, one tick later
 it is gone; a rejected re-registration and a rejected update with a body change nothing; an
 update refreshes; re-registration keeps /reg/2/; DELETE frees the location -/
 def exOps : List Op :=
-  [.register (some exRemote) [(sEp, exN1), (sLt, [53])] exBody,
-   .register (some exRemote) [(sEp, exN2)] exBody,
+  [.register (some exRemote) [(sEp, some exN1), (sLt, some [53])] exBody,
+   .register (some exRemote) [(sEp, some exN2)] exBody,
    .advance 159,
-   .lookupEp [(sEp, exN1)],
-   .register (some exRemote) [(sEp, exN1), (sLt, [97, 98, 99])] exBody,
-   .update 1 (some exRemote) [(sLt, [55])] exBody,
+   .lookupEp [(sEp, some exN1)],
+   .register (some exRemote) [(sEp, some exN1), (sLt, some [97, 98, 99])] exBody,
+   .update 1 (some exRemote) [(sLt, some [55])] exBody,
    .advance 1,
-   .lookupEp [(sEp, exN1)],
-   .register (some exRemote) [(sEp, exN2), (sLt, [53])] exBody,
+   .lookupEp [(sEp, some exN1)],
+   .register (some exRemote) [(sEp, some exN2), (sLt, some [53])] exBody,
    .update 2 (some exRemote) [] exNoBody,
    .read 1,
    .delete 2,
-   .register (some exRemote) [(sEp, exN1)] exBody]
+   .register (some exRemote) [(sEp, some exN1)] exBody]
 
 /-- the responses of that history: created 1, created 2, tick, n1 listed, 4.00, 4.00, tick,
 nothing listed, created 2 again, changed, 4.04, deleted, created 1 -/
@@ -379,10 +491,38 @@ example : ((responses exCfg State.init exOps).map fun r => match r with
 `old`, an accepted re-registration, a 4.xx answer) are all satisfiable -/
 example : ((finalState exCfg State.init (exOps.take 3)).regs.map (·.path)) = [1, 2] := by decide
 example : (step exCfg (finalState exCfg State.init (exOps.take 4))
-    (.register (some exRemote) [(sEp, exN1), (sLt, [97, 98, 99])] exBody)).2.is4xx = true := by decide
+    (.register (some exRemote) [(sEp, some exN1), (sLt, some [97, 98, 99])] exBody)).2.is4xx = true := by decide
 example : ((effects exCfg State.init (exOps.take 2)).head?.map fun e => match e with
     | .wrote r => (r.lt, r.refreshedAt, r.links)
     | _ => (0, 0, [])) = some (5, 0, exLinks) := by decide
+/-- options without a value: `?ep=n1&d` registers n1 without sector (the `d` stays listed as a
+parameter); an update `?flag` is accepted, restarts the lifetime and is found by the lookup `?flag`;
+`?lt` without value is answered 5.00, `?base` and `?base=coap://[` 4.00, none of them changing
+anything; repeated `?count&count` on a lookup 4.00, a single `?count` lists everything -/
+def exFlag : Str := [102, 108, 97, 103]
+def exBadBase : Str := [99, 111, 97, 112, 58, 47, 47, 91]             -- "coap://["
+def exOps4 : List Op :=
+  [.register (some exRemote) [(sEp, some exN1), (sD, none), (sLt, some [53])] exBody,
+   .advance 100,
+   .update 1 (some exRemote) [(exFlag, none)] exNoBody,
+   .advance 100,
+   .lookupEp [(exFlag, none)],
+   .update 1 (some exRemote) [(sLt, none)] exNoBody,
+   .update 1 (some exRemote) [(sBase, none)] exNoBody,
+   .update 1 (some exRemote) [(sBase, some exBadBase)] exNoBody,
+   .lookupEp [(sCount, none), (sCount, none)],
+   .lookupEp [(sCount, none)],
+   .advance 60,
+   .lookupEp []]
+example : ((responses exCfg State.init exOps4).map fun r => match r with
+    | .created p => 100 + p | .changed => 204 | .deleted => 202 | .err code => code
+    | .endpoints rs => rs.length | .resources ls => ls.length | .regLinks ls => ls.length
+    | .ticked => 0) =
+    [101, 0, 204, 0, 1, 500, 400, 400, 400, 1, 0, 0] := by decide
+example : ((finalState exCfg State.init (exOps4.take 10)).regs.map fun r =>
+    (decide (r.d = none), decide (r.params = [(sEp, [some exN1]), (sD, [none]), (exFlag, [none])]), r.refreshedAt)) =
+    [(true, true, 100)] := by decide
+example : urlsplitOk exBadBase = false ∧ urlsplitOk exRemote = true := by decide
 example : Inv State.init := Inv.init
 /-- validation examples: lt must be `[+-]?[0-9]+`, once -/
 example : parseInt [45, 49, 53] = some (-15) ∧ parseInt [48, 48, 55] = some 7 ∧ parseInt [] = none ∧
